@@ -3,7 +3,6 @@
 
 namespace {
 
-using LR = lg::lr_guarded<Tracked>;   // default Mutex = std::mutex -> modelled mutex
 
 struct ModRec { int fiber; uint64_t bit; long call = -1, ret = -1; long first_apply = -1; int applies = 0; bool threw = false; int threw_at = 0; };
 struct ReadRec { int fiber; long call, got, rel; uint64_t v1, v2; };
@@ -26,7 +25,9 @@ bool mask_in_chain(uint64_t m, const std::vector<uint64_t>& order, uint64_t init
     return false;
 }
 
-vh::Outcome run_c03(const vh::Case& c, bool with_faults) {
+template<class M>
+vh::Outcome run_c03_t(const vh::Case& c, bool with_faults) {
+    using LR = lg::lr_guarded<Tracked, M>;
     reset_case_globals();
     LrState st; LS = &st;
     vh::Outcome out;
@@ -139,12 +140,22 @@ vh::Outcome run_c03(const vh::Case& c, bool with_faults) {
     return out;
 }
 
+vh::Outcome run_c03(const vh::Case& c, bool with_faults) {
+    // the writer mutex type is a template parameter of lr_guarded: exercise all four modelled mutex types
+    switch (c.cfg.empty() ? 0 : c.cfg[0] % 4) {
+        case 1: { auto o = run_c03_t<vstd::timed_mutex>(c, with_faults); o.labels.push_back("M=timed_mutex"); return o; }
+        case 2: { auto o = run_c03_t<vstd::shared_mutex>(c, with_faults); o.labels.push_back("M=shared_mutex"); return o; }
+        case 3: { auto o = run_c03_t<vstd::shared_timed_mutex>(c, with_faults); o.labels.push_back("M=shared_timed_mutex"); return o; }
+        default: return run_c03_t<vstd::mutex>(c, with_faults);
+    }
+}
+
 // ================================================================================================ C04 cow_guarded
 struct Commit { uint64_t bit; long lock_call, lock_ret, rel_call = -1, rel_ret = -1; bool cancelled = false; bool committed = false; };
 
-template<class P>
+template<class P, class M = vstd::mutex>
 vh::Outcome run_c04_t(const vh::Case& c) {
-    using COW = lg::cow_guarded<P>;
+    using COW = lg::cow_guarded<P, M>;
     reset_case_globals();
     vrt::tstats().dtor_hb_exempt = true;
     vh::Outcome out;
@@ -285,12 +296,17 @@ vh::Outcome run_c04_t(const vh::Case& c) {
 
 vh::Outcome run_c04(const vh::Case& c) {
     // payload variants: Tracked (move may throw) and TrackedNX (nothrow-movable: type-trait dependent code paths)
-    if (!c.sched.fault_k && !c.cfg.empty() && c.cfg[0] % 2 == 1) { vh::Outcome o = run_c04_t<vrt::TrackedNX>(c); o.labels.push_back("payload=nothrow-movable"); return o; }
+    bool timed = c.cfg.size() > 1 && c.cfg[1] % 2 == 1;
+    if (!c.sched.fault_k && !c.cfg.empty() && c.cfg[0] % 2 == 1) {
+        vh::Outcome o = timed ? run_c04_t<vrt::TrackedNX, vstd::timed_mutex>(c) : run_c04_t<vrt::TrackedNX>(c);
+        o.labels.push_back("payload=nothrow-movable"); if (timed) o.labels.push_back("M=timed_mutex"); return o;
+    }
+    if (timed) { vh::Outcome o = run_c04_t<Tracked, vstd::timed_mutex>(c); o.labels.push_back("M=timed_mutex"); return o; }
     return run_c04_t<Tracked>(c);
 }
 
 vh::GenSpec c04_spec(bool thorough) {
-    vh::GenSpec g; g.nfibers = 4; g.cfg_max = {2}; g.max_ops = thorough ? 6 : 4; g.ncodes = 6; g.amax = 4; g.bmax = 4;
+    vh::GenSpec g; g.nfibers = 4; g.cfg_max = {2, 2}; g.max_ops = thorough ? 6 : 4; g.ncodes = 6; g.amax = 4; g.bmax = 4;
     g.sched_len = thorough ? 256 : 176; g.aux_len = 16;
     return g;
 }
@@ -303,7 +319,7 @@ vh::Register r_c04("C04", c04_spec(false), c04_spec(true), run_c04,
 
 vh::GenSpec c03_spec(bool thorough) {
     vh::GenSpec g;
-    g.nfibers = 4; g.max_ops = thorough ? 6 : 4; g.ncodes = 2; g.amax = 4; g.bmax = 4;
+    g.nfibers = 4; g.max_ops = thorough ? 6 : 4; g.ncodes = 2; g.amax = 4; g.bmax = 4; g.cfg_max = {4};
     g.sched_len = thorough ? 192 : 128; g.aux_len = 16; g.allow_weak = false;
     return g;
 }
